@@ -90,6 +90,8 @@ def gen_op(rng, name, npool, opts):  # pylint: disable=too-many-branches,too-man
     if name == 'repack_pack':
         return {'op': name, 'pack': rng.randrange(8), 'mode': rng.choice(opts['repack_modes'])}
     if name == 'delete':
+        if rng.random() < 0.25:
+            return {'op': name, 'keys': [], 'absent': rng.choice([0, 0, 1]), 'repeats': 0, 'seed': rng.randrange(1 << 20), 'last_indexed': rng.choice([1, 1, 2, 3])}
         return {
             'op': name,
             'keys': [rng.randrange(64) for _ in range(rng.choice([0, 1, 1, 2, 3]))],
@@ -100,6 +102,9 @@ def gen_op(rng, name, npool, opts):  # pylint: disable=too-many-branches,too-man
     if name == 'loosen':
         return {'op': name, 'key': rng.randrange(64), 'absent': rng.random() < 0.1}
     if name == 'import':
+        tmb = rng.choice(opts['tmbs'])
+        if rng.random() < 0.4:
+            tmb = ['sum', rng.choice([1, 1, 2, 2, 3]), rng.choice([-1, 0, 0, 1, 40])]
         return {
             'op': name,
             'src': 'b',
@@ -108,7 +113,7 @@ def gen_op(rng, name, npool, opts):  # pylint: disable=too-many-branches,too-man
             'repeats': rng.choice([0, 0, 1]),
             'kind': rng.choice(opts['import_kinds']),
             'compress': rng.random() < 0.4,
-            'tmb': rng.choice(opts['tmbs']),
+            'tmb': tmb,
             'callback': rng.random() < 0.4,
             'do_fsync': rng.choice(opts['do_fsync']),
             'seed': rng.randrange(1 << 20),
